@@ -49,6 +49,12 @@ CHECKS = {
  "C18": dict(cat="exploration", tech="dial-address and wire-transcript oracles over the configuration product; PONG token oracle under segmentation; client-ping instants in virtual time (synctest)",
    text="The address handed to the registered proxy dialer is checked for 12 server spellings x SSL x dialer kinds; the first wire lines for the nick/ident/name/password/negotiation/tracking product over three successive connects of the same client; PONG tokens for a hostile token pool interleaved with other traffic; client PING instants for seven PingFreq values over virtual spans up to an hour. The configuration grids are enumerated completely; token streams are sampled.",
    note="Trusted: with SSL the dial is observed and refused (no TLS handshake); synctest clock for the ping half.", ref="§4 C18"),
+ "C19": dict(cat="exploration", tech="trace automaton over the CAP/AUTHENTICATE wire transcript driven by a reactive server, plus SupportsCapability/HasCapability at sync markers; exhaustive small universe + PRNG large sets",
+   text="One negotiation per fresh client for every combination of wanted list (incl. duplicates), SASL none/PLAIN/EXTERNAL, advertised subset, reply ACK/NAK/ACK-then-minus and SASL outcome over the small capability universe (enumerated completely), plus PRNG sets of 50..300 capabilities forcing split requests; checks requested = wanted-and-advertised, held = latest acknowledgement, CAP END at quiescence in every listed situation, SASL ordering and payloads.",
+   note="Trusted: go-sasl's clients as the definition of 'what the mechanism prescribes'; quiescence via a PING/PONG round trip.", ref="§4 C19"),
+ "C20": dict(cat="exploration", tech="capturing logging.Logger with a substring oracle over every record and argument, control run with an empty password, over successful and failing sessions",
+   text="PRNG passwords from nine classes (spaces, format verbs, leading colon, 200 bytes, starting with PASS, containing the mask) on clients with/without negotiation, SASL, tracking, over successful, dial-refused, write-error, EOF-during-registration and reconnecting sessions; no record may contain the password and a masked PASS record must exist whenever PASS reached the wire. Held on the sessions explored.",
+   note="Trusted: the capturing logger sees every record because logging is package-global; passwords occurring in the control log are skipped as trivial.", ref="§4 C20"),
 }
 
 NOT_BUILT = "check not built yet in this round (planned, see DESIGN.md §4)"
